@@ -318,7 +318,7 @@ theorem keySegIdent_inv {l : T} {n : String} (h : DI.segIdent l = some n) : XOK.
   · cases h; simp [XOK.segIdent, kid, kids, atoms]
   · cases h
 
-theorem keySegArgs_good {l : T} (h : goodArgs (DI.segArgs l) = true) :
+theorem keySegArgs_good {l : T} (h : cmpArgs (DI.segArgs l) = true) :
     XOK.segArgs l = (match DI.segArgs l with | .angle args => args | _ => []) := by
   cases hs : DI.segArgs l with
   | angle args =>
@@ -331,8 +331,10 @@ theorem keySegArgs_good {l : T} (h : goodArgs (DI.segArgs l) = true) :
     · cases hs
     · cases hs
     · cases hs
-  | paren => rw [hs] at h; simp [goodArgs] at h
-  | bad => rw [hs] at h; simp [goodArgs] at h
+  | paren x =>
+    obtain ⟨id, as, ks, rfl, _⟩ := segArgs_paren_inv hs
+    simp [XOK.segArgs, kid, kids, kind]
+  | bad => rw [hs] at h; simp [cmpArgs] at h
 
 /-- the normalised segments of a well-formed path in terms of the components of its key -/
 theorem normSegs_of_wf {p : T} (h : wfPath p = true) :
@@ -365,7 +367,7 @@ theorem normSegs_of_tbEq {p q : T} (hp : wfPath p = true) (hq : wfPath q = true)
     · exact hk
     · rw [if_neg hk] at h; cases h
   simp only [keyOf', TraitKey.mk.injEq] at hk
-  rw [normSegs_of_wf hp, normSegs_of_wf hq, hk.1, hk.2.1, hk.2.2]
+  rw [normSegs_of_wf hp, normSegs_of_wf hq, hk.1, hk.2.1, hk.2.2.1]
 
 theorem mem_dedupKeys {l : List T} {b : T} (h : b ∈ l) : b ∈ dedupKeys l := by
   unfold dedupKeys
